@@ -977,11 +977,149 @@ def _tensor(rep):
 
 
 def _wrapper(rep):
-    pass
+    """Python side: geometry.get_displacement_tensor / expand_pbc / get_distances (executed from the real source; finite flag domain)"""
+    import itertools
+    m = contexts.geometry_ctx()
+    from engine.pyvc import Explorer, Interp
+    REL = "matid/geometry/geometry.py"
+    calls = []
+
+    class Ext:
+        def _getattr(self, interp, attr):
+            if attr == "get_displacement_tensor":
+                def f(*a):
+                    calls.append(a)
+                return f
+            raise Unsupported("matid.ext.%s" % attr)
+
+    geo_ns = m.globals["matid"]
+    old_ext = geo_ns._subs["ext"]
+    geo_ns._subs["ext"] = Ext()
+    bad = []
+    n_cases = 0
+    try:
+        f = m.get("get_displacement_tensor")
+        pos = np.zeros((2, 3))
+        cell = np.diag([3.0, 4.0, 5.0])
+        for cutoff, cl, pbc, rf, rd in itertools.product((None, float("inf"), 2.5), (None, cell), (True, False, [True, False, True]), (False, True), (False, True)):
+            calls.clear()
+            ex = Explorer(REL + ":get_displacement_tensor")
+
+            def thunk(st):
+                it = Interp(st)
+                return it.run_func(f, [pos], {"cell": cl, "pbc": pbc, "cutoff": cutoff, "return_factors": rf, "return_distances": rd})
+
+            oc = ex.explore(thunk)
+            n_cases += 1
+            ok = len(oc) == 1 and oc[0][0] == "return" and len(calls) == 1
+            if ok:
+                a = calls[0]
+                r = oc[0][1]
+                disp, dist, fac = a[0], a[1], a[2]
+                ok &= disp.shape == (2, 2, 3) and dist.shape == (2, 2) and fac.shape == (2, 2, 3)
+                ok &= all(x == float("inf") for x in np.array(disp, dtype=float).reshape(-1)) and all(x == float("inf") for x in np.array(dist, dtype=float).reshape(-1))
+                ok &= a[3] is pos and (a[4] is cl if cl is not None else np.array_equal(np.array(a[4], dtype=float), np.eye(3)))
+                want_pbc = [pbc] * 3 if isinstance(pbc, bool) else list(pbc)
+                ok &= list(a[5]) == want_pbc
+                ok &= a[6] == (float("inf") if cutoff is None else cutoff) and a[7] is rf and a[8] is rd
+                exp = [disp] + ([fac] if rf else []) + ([dist] if rd else [])
+                if len(exp) == 1:
+                    ok &= r is disp
+                else:
+                    ok &= isinstance(r, tuple) and len(r) == len(exp) and all(x is y for x, y in zip(r, exp))
+            if not ok:
+                bad.append((cutoff, cl is not None, pbc, rf, rd))
+        rep.add(Ob(id="wrapper.initialises-with-inf-and-forwards-arguments", status="proved" if not bad else "refuted", backend="exact-evaluation", kind="exact",
+                   func=REL + ":get_displacement_tensor", detail="%d argument combinations; failures %s" % (n_cases, bad[:3])))
+        # expand_pbc
+        g = m.get("expand_pbc")
+        res = []
+        for arg, want in ((True, [True] * 3), (False, [False] * 3), ([True, False, False], [True, False, False]), (np.array([False, True, True]), [False, True, True])):
+            ex = Explorer("expand_pbc")
+            oc = ex.explore(lambda st, arg=arg: Interp(st).run_func(g, [arg], {}))
+            res.append(len(oc) == 1 and oc[0][0] == "return" and list(oc[0][1]) == want)
+        ex = Explorer("expand_pbc")
+        oc = ex.explore(lambda st: Interp(st).run_func(g, [[True, False]], {}))
+        res.append(len(oc) == 1 and oc[0][0] == "raise" and isinstance(oc[0][1], ValueError))
+        rep.add(Ob(id="wrapper.expand_pbc-total", status="proved" if all(res) else "refuted", backend="exact-evaluation", kind="exact", func=REL + ":expand_pbc"))
+    finally:
+        geo_ns._subs["ext"] = old_ext
+    from engine.common import func_source_info
+    rep.functions.append(func_source_info(REL, "get_displacement_tensor"))
+    rep.functions.append(func_source_info(REL, "expand_pbc"))
 
 
 def _driver(rep):
-    pass
+    """get_displacement_tensor (C++ entry point) and get_cell_list: extension = cutoff, or the longest periodic cell vector for an
+    infinite cutoff; the cell list is built from the extended system with the cutoff; the tensor is filled for the original atoms"""
+    m = X.module()
+    for inf in (False, True):
+        lab = "driver[cutoff=inf]." if inf else "driver."
+        rec = {}
+
+        def ext_contract(it, st, bound, site):
+            st.ghost["extend_args"] = bound
+            return cxxrt.Struct("ExtendedSystem", "EXT_POS", "EXT_NUM", "EXT_IDX", "EXT_FAC")
+
+        class CLTok:
+            indices_py = "EXT_IDX"
+
+            def get_displacement_tensor(self, *a):
+                cur().ghost["tensor_args"] = a
+
+        def struct_hook(tname, *vals):
+            if tname == "CellList":
+                cur().ghost["celllist_args"] = vals
+                return CLTok()
+            raise Unsupported("struct %s" % tname)
+
+        def mk(st, it, inf=inf):
+            n = sint("n_atoms")
+            st.assume(n.t >= 1)
+            cell = sym_cell("c")
+            pbc = sym_pbc("pbc")
+            cutoff = cxxrt.INF if inf else sreal("cutoff")
+            pos = sym_positions("pos", n)
+            st.ghost["cxx_struct_hook"] = struct_hook
+            st.ghost["cxx_array_hook"] = lambda x: (X.SymArr("tmp", x, "real") if isinstance(x, list) else NotImplemented)
+            return ["DISP", "DIST", "FAC", pos, cell, pbc, cutoff, False, True], {}, {"cell": cell, "pbc": pbc, "cutoff": cutoff, "pos": pos, "n": n}
+
+        def post(st, ctx, r, inf=inf):
+            ea = st.ghost.get("extend_args")
+            ca = st.ghost.get("celllist_args")
+            ta = st.ghost.get("tensor_args")
+            st.prove("extends-then-builds-cell-list-then-fills", z3.BoolVal(ea is not None and ca is not None and ta is not None))
+            if ea is None or ca is None or ta is None:
+                return
+            st.prove("extended-with-the-given-positions-cell-pbc", z3.BoolVal(ea["positions"] is ctx["pos"] and ea["cell"] is ctx["cell"] and ea["pbc"] is ctx["pbc"]))
+            ext = ea["cutoff"]
+            if not inf:
+                st.prove("extension-is-the-cutoff", z3num(ext) == ctx["cutoff"].t)
+            else:
+                cell, pbc = ctx["cell"], ctx["pbc"]
+                Ls = [norm_contract(None, st, {"a": [cell[i, 0], cell[i, 1], cell[i, 2]]}, "") for i in range(3)]
+                e = z3num(ext)
+                st.prove("extension-covers-every-periodic-vector", z3.And([z3.Implies(z3bool(pbc[i]), e >= z3num(Ls[i])) for i in range(3)]))
+                st.prove("extension-is-the-longest-periodic-vector-or-zero", z3.Or([e == 0] + [z3.And(z3bool(pbc[i]), e == z3num(Ls[i])) for i in range(3)]))
+            st.prove("cell-list-over-the-extended-system", z3.BoolVal(ca[0] == "EXT_POS" and ca[1] == "EXT_IDX" and ca[2] == "EXT_FAC"))
+            st.prove("cell-list-cutoff-is-the-cutoff", z3.BoolVal(ca[3] is ctx["cutoff"]) if inf else z3num(ca[3]) == ctx["cutoff"].t)
+            st.prove("tensor-arrays-forwarded", z3.BoolVal(ta[0] == "DISP" and ta[1] == "DIST" and ta[2] == "FAC" and ta[3] == "EXT_IDX"))
+            st.prove("tensor-for-the-original-atoms", z3num(ta[4]) == ctx["n"].t)
+
+        contracts = dict(NORM)
+        contracts["matid/ext (translated C++):extend_system"] = ext_contract
+        def hav_zero(st, env, old):
+            a = env.lookup("atomic_numbers_mu")
+            st.n += 1
+            a.a = z3.Const("%s!%d" % (a.name, st.n), a.a.sort())
+            env.vars.pop("i", None)
+
+        def body_zero(st, env, k, old):
+            a = env.lookup("atomic_numbers_mu")
+            return [("dummy-atomic-number-zero", z3num(a._getitem(k)) == 0)]
+
+        run_fv(rep, lab, m, "get_displacement_tensor_cpp", mk, post, contracts=contracts,
+               loops={("get_cell_list", 1): LoopSpec(lambda *a: [], hav_zero, name="dummy-numbers", body_post=body_zero)})
 
 
 def replay_key(ob):
@@ -989,7 +1127,8 @@ def replay_key(ob):
 
 
 def replay(ob):
-    return {"reproduced": False, "note": "native replay of the C++ needs the prebuilt extension: see props/C10_native.py"}
+    from props import C10_native
+    return C10_native.replay_c10()
 
 
 def replay_file(rp):
